@@ -79,15 +79,32 @@ func implSource(peers []gpeer, localID uint64, retry int, rsyncLocal bool, term,
 		}
 	}()
 	wrong := false
-	for _, p := range peers {
-		p := p
+	// all listeners first: the port of an unreachable peer (closed below) must not be handed to another stub
+	lns := make([]net.Listener, len(peers))
+	for k := range peers {
 		ln, err := net.Listen("tcp", "127.0.0.1:0")
 		if err != nil {
 			return "listenerr"
 		}
+		lns[k] = ln
+	}
+	for k, p := range peers {
+		p := p
+		ln := lns[k]
 		port := ln.Addr().(*net.TCPAddr).Port
 		if p.answ == "x" {
-			ln.Close()
+			// a peer that cannot be talked to: the connection is dropped without an answer (the port
+			// stays bound, so that nobody else can appear behind it)
+			go func() {
+				for {
+					c, err := ln.Accept()
+					if err != nil {
+						return
+					}
+					c.Close()
+				}
+			}()
+			defer ln.Close()
 		} else {
 			mux := http.NewServeMux()
 			mux.HandleFunc("/", func(w http.ResponseWriter, r *http.Request) {
